@@ -267,7 +267,7 @@ def _leaf_differs(a, b, vocab):
     if sorted(x for x in da if x not in "()[]{},") == sorted(x for x in db if x not in "()[]{},"):
         return False
     for t in da + db:
-        if UNRESOLVED.search(t) or t == "phi" or re.match(r"^~\d*$", t) or t.startswith("@"):
+        if UNRESOLVED.search(t) or t in ("phi", "OPQ", "match") or re.match(r"^~\d*$", t) or t.startswith("@"):
             return False
         if re.match(r"^[A-Z][A-Z0-9_]{2,}$", t) and t not in BUILTIN and not t.startswith("IS_"):
             return False           # a constant referred to by name: its value is not in the text
@@ -275,3 +275,53 @@ def _leaf_differs(a, b, vocab):
                 t.rsplit("::", 1)[-1] not in vocab and re.search(re.escape(t) + r"\(", a + " " + b):
             return False
     return True
+
+
+# ---------------------------------------------------------------------------
+# how much of a function was rewritten
+
+_UNITS = {}
+REWRITE_LIMIT = 10
+
+
+def rewritten(F, path):
+    """(changed units, note) when the function (or a crate-local function it calls directly) differs from the
+    reviewed version in more than REWRITE_LIMIT simple statements / conditions: a restructuring. A syntactic
+    comparison with the reference says nothing reliable about a restructured function."""
+    import hashlib
+    import json
+    import os
+    from .facts import units, unit_distance, walk
+    if "ref" not in _UNITS:
+        p = os.path.join(os.path.dirname(os.path.dirname(os.path.abspath(__file__))), "spec", "units.json")
+        _UNITS["ref"] = json.load(open(p))["functions"] if os.path.exists(p) else {}
+    ref = _UNITS["ref"]
+    key = id(F)
+    cur = _UNITS.setdefault(("cur", key), {})
+
+    def cur_units(pth):
+        if pth not in cur:
+            b = F.body_by_path.get(pth)
+            cur[pth] = [hashlib.sha1(u.encode()).hexdigest()[:10] for u in units(b["body"])] \
+                if b is not None and "body" in b else None
+        return cur[pth]
+    b0 = F.body_by_path.get(path)
+    fns = [path]
+    if b0 is not None and "body" in b0:
+        for n in walk(b0["body"]):
+            if n.get("k") in ("call", "mcall"):
+                cal = n.get("inst") or n.get("f") or ""
+                if cal in ref and cal not in fns:
+                    fns.append(cal)
+    worst = 0
+    who = None
+    for fn in fns:
+        cu = cur_units(fn)
+        if cu is None or fn not in ref:
+            continue
+        ch, _ = unit_distance(ref[fn], cu)
+        if ch > worst:
+            worst, who = ch, fn
+    if worst > REWRITE_LIMIT:
+        return worst, who
+    return 0, None
